@@ -105,19 +105,19 @@ type WriteFault struct {
 type ScriptConn struct {
 	mu sync.Mutex
 
-	in      []byte
-	pos     int
-	chunks  []int // sizes of successive reads; 0 or exhausted = as much as asked
-	chunkI  int
-	EndErr  error // returned when the input is exhausted (default io.EOF)
+	in     []byte
+	pos    int
+	chunks []int // sizes of successive reads; 0 or exhausted = as much as asked
+	chunkI int
+	EndErr error // returned when the input is exhausted (default io.EOF)
 	// EOFWithData makes the Read that delivers the last input bytes return
 	// them together with EndErr (an io.Reader may do that).
 	EOFWithData bool
-	rfault  *ReadFault
-	rfired  bool
-	rferr   error
-	readN   int // number of Read calls
-	TotalIn int // bytes delivered
+	rfault      *ReadFault
+	rfired      bool
+	rferr       error
+	readN       int // number of Read calls
+	TotalIn     int // bytes delivered
 	// BeforeFault is the number of bytes that had been delivered by Read calls
 	// strictly before the call that reported the armed fault.
 	BeforeFault int
@@ -138,7 +138,7 @@ type ScriptConn struct {
 	// delivered: on a live connection whose peer stays silent each of them
 	// would block.
 	Starved int
-	NoLog  bool
+	NoLog   bool
 }
 
 // NewScriptConn returns a transport that will deliver input using the chunk
